@@ -945,6 +945,12 @@ pub fn judge_xz(file: &[u8], delivered: &[u8]) -> Judge {
     if ft[10..12] != [0x59, 0x5A] {
         return dis("footer.magic", "bad footer magic".into());
     }
+    // what follows the footer is judged only as far as it is zero padding: stream
+    // padding is a multiple of four zero bytes (other trailing data: C11, C18)
+    let rest = &file[p + 12..];
+    if !rest.is_empty() && rest.iter().all(|x| *x == 0) && rest.len() % 4 != 0 {
+        return dis("stream_padding", format!("{} zero bytes after the footer: stream padding is a multiple of four", rest.len()));
+    }
     Judge::Agree
 }
 
